@@ -76,7 +76,12 @@ pub fn parse_chunk(p: &mut LuaParser) {
 fn parse_block(p: &mut LuaParser) -> ParseResult {
     let m = p.mark(LuaSyntaxKind::Block);
 
-    parse_stats(p);
+    if p.enter_nesting() {
+        parse_stats(p);
+    } else {
+        p.fail_nesting_too_deep();
+    }
+    p.leave_nesting();
 
     Ok(m.complete(p))
 }
